@@ -246,8 +246,8 @@ def r3_join_waits(ctx):
 JOIN_READERS = {
     r"^server::HttpServer::<C>::close::\{closure#0\}$": "awaits it (consumes the server)",
     r"^server::HttpServer::<C>::wait_for_shutdown$": "clones the Shared handle into a ShutdownWaitFuture",
-    r"^<server::HttpServer<C> as futures::Future>::poll$": "polls the Shared handle in place",
-    r"^<server::HttpServer<C> as futures::future::FusedFuture>::is_terminated$": "read-only query",
+    r"^<server::HttpServer<C> as [\w:]*Future>::poll$": "polls the Shared handle in place",
+    r"^<server::HttpServer<C> as [\w:]*FusedFuture>::is_terminated$": "read-only query",
 }
 
 
@@ -274,11 +274,11 @@ def r4_shared_result(ctx):
     ok = r0.reads_field("join_future") and r0.has_call(r"clone::Clone::clone$") and any(x[0] == "agg" and x[1] == "server::ShutdownWaitFuture" for x in r0.atoms) and \
         not [c for c, b, t in r0.callees if not re.search(r"clone::Clone::clone$", c)]
     ctx.check(R, "wait_for_shutdown-clones", ok, "wait_for_shutdown returns ShutdownWaitFuture(self.join_future.clone()): %s" % ok, wf)
-    pf = ctx.need_fn(ctx.ds, R, r"^<server::HttpServer<C> as futures::Future>::poll$")
+    pf = ctx.need_fn(ctx.ds, R, r"^<server::HttpServer<C> as [\w:]*Future>::poll$")
     polls = [(b, t) for b, t in pf.live_calls(r"Future::poll$") if pf.slice(t["args"][0]).reads_field("join_future")]
     ok = len(polls) == 1 and polls[0][1]["dest"]["l"] == 0 and pf.must_pass([polls[0][0]])
     ctx.check(R, "server-future-polls-the-shared-result", ok, "Future for HttpServer returns the poll of self.join_future: %s" % ok, pf)
-    sf = ctx.need_fn(ctx.ds, R, r"^<server::ShutdownWaitFuture as futures::Future>::poll$")
+    sf = ctx.need_fn(ctx.ds, R, r"^<server::ShutdownWaitFuture as [\w:]*Future>::poll$")
     polls = [(b, t) for b, t in sf.live_calls(r"Future::poll$") if "future::Shared" in (t.get("callee_args") or "") + (t.get("resolved") or "")]
     ok = len(polls) == 1 and polls[0][1]["dest"]["l"] == 0 and sf.must_pass([polls[0][0]])
     ctx.check(R, "waiter-polls-the-shared-result", ok, "ShutdownWaitFuture::poll returns the poll of its Shared handle: %s" % ok, sf)
